@@ -1451,6 +1451,11 @@ pub fn execute(plan: &Plan, obs: &mut Obs) -> Result<(), Fail> {
                         ));
                     }
                 }
+                if !state_is_finite(&a) {
+                    // non-finite contents are outside the property ("all finite contents")
+                    obs.count("life.ended_by_nonfinite_state");
+                    return Ok(());
+                }
                 if generation > 0 {
                     let eq = call(P, "==", || equal(&a, &b))?;
                     if !eq {
@@ -1478,11 +1483,7 @@ pub fn execute(plan: &Plan, obs: &mut Obs) -> Result<(), Fail> {
                     Outcome::Err => "after-refusal",
                     _ => "after-op",
                 };
-                if !state_is_finite(&a) {
-                    // non-finite contents are outside the property ("all finite contents")
-                    obs.count("life.ended_by_nonfinite_state");
-                    return Ok(());
-                }
+
                 if let (Obj::Spline(_), Outcome::Ok) = (&a, &oa) {
                     obs.count("reach.spline_solved");
                 }
